@@ -88,9 +88,15 @@ def cur():
     return CURRENT
 
 
+# What the client reads as wall-clock time is a realistic epoch value (2**31 s: exactly representable, and so is every
+# multiple of 1/8 s added to it), not a small number of seconds: code that mixes absolute and session-relative times
+# would get away with it on a clock that starts at zero.  The simulation's own "now" stays relative.
+EPOCH = 2.0 ** 31
+
+
 class _ClockProxy(object):
     def time(self):
-        return cur().now
+        return EPOCH + cur().now
 
     def sleep(self, dt):
         cur().now += dt
@@ -835,6 +841,10 @@ class Sim(object):
         if st.broken:
             self.log_op("send_fail", st, data)
             self.raise_broken(st, sending=True)
+        if f and f.startswith("slow:"):
+            # the write takes (virtual) time - a full send buffer, a slow link - and then succeeds
+            self.now += float(f[5:])
+            f = None
         if f and f.startswith("partial_"):
             # sendall() got part of the data out before it failed (it cannot say how much): those bytes ARE on the wire
             half = data[:max(1, len(data) // 2)]
